@@ -146,4 +146,7 @@ def obligations(tier, rng):
             for begin in range(0, end + 1):
                 out.append(ob('C02', 'unit_window', 'unit/%s[%d,%d]' % (op, begin, end), op=op, begin=begin, end=end))
     seen = set()
-    return [o for o in out if not (o['oid'] in seen or seen.add(o['oid']))]
+    res_ = [o for o in out if not (o['oid'] in seen or seen.add(o['oid']))]
+    from .. import core as _core
+    res_ = res_ + _core.make_twins(res_, [('F1/once[0,1](x)/N=3', 'window'), ('F1/(x) and (y)/N=3', 'minmax'), ('F1/prev(x)/N=3', 'pad'), ('F1/(x) since (y)/N=3', 'since')]) + _core.make_forkmode(res_, ['F1/historically[0,2](x)/N=3', 'F1/(x) since[0,1] (y)/N=3', 'unit/once[0,2]', 'unit/since[1,2]'])
+    return res_
